@@ -217,6 +217,21 @@ func answer(c *Case, txp **btc.Tx, idx int, amount uint64, q string) string {
 		}
 	})
 	r.Hit("crypto-query:" + t[0])
+	if t[0] == "sigt" {
+		// hypothesis TapSigHashOk of the Lean theorems (Props/C01.lean): Tx.TaprootSigHash answers nil exactly where
+		// BIP341 defines no signature message (undefined hash type; SIGHASH_SINGLE without a matching output)
+		ht, _ := strconv.ParseUint(t[4], 10, 8)
+		defined := (ht <= 3 || (ht >= 0x81 && ht <= 0x83)) && !(ht%4 == 3 && idx >= len((*txp).TxOut))
+		if (res != "-") != defined {
+			var rep interface{} = q
+			if c != nil {
+				rep = c
+			}
+			r.TieFail("taproot-sighash-definedness", fmt.Sprintf("Tx.TaprootSigHash(hash type %#x, input %d of a transaction with %d outputs) returned nil=%v, BIP341 defines a digest=%v (hypothesis TapSigHashOk of script_equiv)", ht, idx, len((*txp).TxOut), res == "-", defined), rep)
+		} else {
+			r.Hit("tapsighash-definedness-ok")
+		}
+	}
 	return res
 }
 
